@@ -369,8 +369,11 @@ type childResult struct {
 }
 
 var scratchDir string
+var scratchMu sync.Mutex
 
 func scratch() string {
+	scratchMu.Lock()
+	defer scratchMu.Unlock()
 	if scratchDir == "" {
 		base := os.Getenv("VERIF_SCRATCH")
 		if base == "" {
@@ -442,7 +445,8 @@ func runChildOpt(bin string, mode string, args []string, env []string, watchdog 
 		cmd.Stdout = f
 		cmd.Stderr = f
 	}
-	cmd.Env = append(os.Environ(), env...)
+	// children put their scratch directories inside the parent's, so one RemoveAll cleans up even after a crash
+	cmd.Env = append(append(os.Environ(), "VERIF_SCRATCH="+scratch()), env...)
 	cmd.SysProcAttr = &syscall.SysProcAttr{Setpgid: true}
 	res := childResult{}
 	if err := cmd.Start(); err != nil {
